@@ -11,7 +11,7 @@ from .kernel import _addr_raw
 
 KINDS_C11 = ('invalid_ke_never_offered', 'foreign_child_response', 'foreign_init_response', 'multi_proposal_request', 'foreign_ike_rekey_response', 'ke_unimplemented_group',
              'invalid_ke_cross_offer')
-KINDS_C10 = ('bad_reply', 'delete_child_on_rekeyed')
+KINDS_C10 = ('bad_reply', 'delete_child_on_rekeyed', 'delete_other_spi')
 KINDS_C17 = ('auth_malformed',)
 KINDS_C14 = ('reuse_spi_request', 'range_request')
 KINDS_C12 = ('widen_response', 'flip_mode_response', 'ts_list_request', 'narrow_rekey_response', 'flip_mode_request', 'narrow_rekey_request', 'range_request')
@@ -858,6 +858,43 @@ def make(kind, seed, world, ip, tap, reach):
         return rule, lambda w: None
 
     # ------------------------------------------------------------------------------------------------------------
+    if kind == 'delete_other_spi':
+        # a sloppy peer names a CHILD_SA it deletes by the SPI of the other direction (RFC 7296 3.11 wants the sender's inbound SPI): whatever
+        # the receiver makes of it - find the CHILD_SA by either SPI, or ignore the request - kernel and tables stay in step
+        def rule(meta, data):
+            try:
+                h = R.dec_header(data)
+            except R.DecodeError:
+                return None
+            if h['R'] or h['exch'] != R.INFORMATIONAL:
+                return None
+            opened = ip.open(data)
+            if opened is None:
+                return None
+            _, pls, s = opened
+            dels = [p for p in pls if p['type'] == R.P_DELETE and p['proto'] in (R.PROTO_ESP, R.PROTO_AH) and p['spis']]
+            if not dels:
+                return None
+            r = random.Random(f'byz:{seed}:{meta["key"]}')
+            if r.random() < 0.3:
+                return None
+            pair = {}
+            for c in tap.children:
+                pair[c['spi_init']], pair[c['spi_resp']] = c['spi_resp'], c['spi_init']
+            changed = False
+            for p in dels:
+                new_spis = [pair.get(x, x) for x in p['spis']]
+                changed = changed or new_spis != p['spis']
+                p['spis'] = new_spis
+            if not changed:
+                return None
+            count('byz.' + kind)
+            new = ip.seal(s, {'spi_i': h['spi_i'], 'spi_r': h['spi_r'], 'exch': h['exch'], 'I': h['I'], 'R': False, 'id': h['id']}, pls, _rb(r, 16))
+            return [(new, 0.0)]
+        rule.label = 'byz.' + kind
+        return rule, lambda w: None
+
+    # ------------------------------------------------------------------------------------------------------------
     if kind == 'delete_child_on_rekeyed':
         # a peer that has rekeyed the IKE_SA sends, over the OLD IKE_SA and in front of the DELETE that closes it, a DELETE for a CHILD_SA
         # (RFC 7296 2.8 only requires the IKE_SA DELETE to be the last request on the old IKE_SA).  The CHILD_SAs live in the successor by
@@ -935,7 +972,14 @@ def make(kind, seed, world, ip, tap, reach):
                     # one selector names a protocol, the other stays "any": a packet has to be admitted by both
                     sel['proto'] = r.choice([6, 17])
                     done.append(name + '.proto')
-                if how in ('addr', 'both') and z - a >= 15:
+                if how in ('addr', 'both') and z - a >= 15 and a > 64 and r.random() < 0.25:
+                    # a range that sticks out of the sender's own selector at the lower end and covers half of it: it overlaps the
+                    # responder's (equal) policy only in part - neither inside it nor around it - though the smallest network around it is
+                    lo = a - r.randint(1, 60)
+                    hi = a + (z - a) // 2 + r.choice([0, 1, 5])
+                    sel['saddr'], sel['eaddr'] = lo.to_bytes(n, 'big'), hi.to_bytes(n, 'big')
+                    done.append(name + '.addr_overlap')
+                elif how in ('addr', 'both') and z - a >= 15:
                     span = r.choice([1, 2, 3, 5, 6, 9, 12])
                     if r.random() < 0.6:
                         # across an alignment boundary of the block
